@@ -779,7 +779,57 @@ func c07waitZero(c *Ctx, sr *schedRoles) {
 			}
 		}
 	}
+	// ... and so does every return of the wait function: every path to it takes an edge on which
+	// the all-zero predicate answered true (or a stop clause / a stop-reporting helper): a fast path
+	// around the loop lets termination be signalled - channels closed - with releases still unread
+	okEdge := func(e CondEdge) bool {
+		if p.edgeIsCallResult(e, func(f *ssa.Function) bool { return f == sr.allZero }, true) {
+			return true
+		}
+		if p.edgeIsCallResult(e, p.reportsOnlyStop, true) {
+			return true
+		}
+		if _, cs, _ := p.CaseOnEdge(e.From, e.Succ); cs != nil && strings.HasPrefix(p.stopRoleOf(cs.State.Chan), "stop:") {
+			return true
+		}
+		return false
+	}
+	for _, b := range wz.Blocks {
+		ret, isRet := b.Instrs[len(b.Instrs)-1].(*ssa.Return)
+		if !isRet || b == wz.Recover {
+			continue
+		}
+		if !allPathsPassAny(b, okEdge) {
+			problems = append(problems, fmt.Sprintf("the wait function can return at %s without the all-zero predicate having answered true: termination is signalled with releases unread", p.InstrPos(ret)))
+		}
+	}
 	r.Check(len(problems) == 0, "E4", key, p.Pos(wz.Pos()), "deferred first; leaves only when all counters are zero (or on stop)", strings.Join(problems, "; "))
+}
+
+// allPathsPassAny: every path from the entry of b's function to b takes some edge (conditional or
+// select clause) accepted by pred.
+func allPathsPassAny(b *ssa.BasicBlock, pred func(e CondEdge) bool) bool {
+	fn := b.Parent()
+	// blocks reachable from the entry without taking an accepted edge
+	seen := map[*ssa.BasicBlock]bool{fn.Blocks[0]: true}
+	work := []*ssa.BasicBlock{fn.Blocks[0]}
+	for len(work) > 0 {
+		x := work[len(work)-1]
+		work = work[:len(work)-1]
+		if x == b {
+			return false
+		}
+		for i, s := range x.Succs {
+			if pred(CondEdge{x, i}) {
+				continue
+			}
+			if !seen[s] {
+				seen[s] = true
+				work = append(work, s)
+			}
+		}
+	}
+	return true
 }
 
 func c07errChannel(c *Ctx, p *Prog) {
